@@ -79,7 +79,9 @@ class ControlledScheduler:
             if isinstance(node, (Alias, DataNode)):
                 return True
             fn = _func_name(node)
-            return fn is not None and fn.split(".")[-1] in PURE_FUNC_NAMES
+            # an identity node without dependencies carries an embedded sub-graph (e.g. the whole loading of one
+            # sub-volume): that is library code, not plumbing
+            return fn is not None and fn.split(".")[-1] in PURE_FUNC_NAMES and len(node.dependencies) > 0
 
         deps = {k: set(v.dependencies) & set(d) for k, v in d.items()}
         done = {}
